@@ -11,4 +11,4 @@ import Solvor.Cp.Theorems
 #print axioms Solvor.Cp.dfs_infeasible_iff
 #print axioms Solvor.Cp.choose_solver_total
 #print axioms Solvor.Cp.enc_linear
-#print axioms Solvor.Cp.encode_model_exact_partial
+#print axioms Solvor.Cp.encode_model_exact
